@@ -32,7 +32,7 @@ def canon_list(lines):
     return sorted(ents)
 
 
-def compare_line(cmd, himp, hspec):
+def compare_line(cmd, himp, hspec, ignore_names=()):
     """cmd: script line; himp: list of harness result strings for the line; hspec: spec result string. returns None or mismatch text"""
     op = cmd.split()[0]
     imp = himp[-1] if himp else "?"
@@ -44,6 +44,9 @@ def compare_line(cmd, himp, hspec):
             return "status %s vs model %s" % (imp, want[-1])
         if st_s == "ok":
             a, b = canon_list(himp), sorted(want[:-1])
+            if ignore_names:
+                a = [x for x in a if common.kv(x)[1].get("name") not in ignore_names]
+                b = [x for x in b if common.kv(x)[1].get("name") not in ignore_names]
             if a != b:
                 return "listing differs: impl %s / model %s" % (a, b)
         return None
@@ -108,7 +111,7 @@ def tree_canon_spec(lines):
     return sorted(out)
 
 
-def run_history(ctx, L, first=0, nblocks=1760, variant="adfh", timeout=300):
+def run_history(ctx, L, first=0, nblocks=1760, variant="adfh", timeout=300, spec_patch=None, ignore_names=()):
     """L: script lines.  Lines 'dump $W/imgK' mark judgement points; a 'spectree' line must follow each dump.
        returns dict(findings=[(prop, what, detail)], nlines, ...)"""
     script = "\n".join(L) + "\n"
@@ -118,6 +121,14 @@ def run_history(ctx, L, first=0, nblocks=1760, variant="adfh", timeout=300):
     if rc != 0:
         findings.append(("CRASH", "harness exit code %d" % rc, {"tail": out[-4:], "stderr": err[-400:]}))
     sp = os.path.join(wd, "script")
+    if spec_patch:
+        # the reference model does not know about space: calls that ran out of blocks are replayed with what was stored
+        LS, tolerant = spec_patch(L, res)
+        sp = os.path.join(wd, "script.spec")
+        with open(sp, "w") as f:
+            f.write("\n".join(LS) + "\n")
+    if not spec_patch:
+        tolerant = set()
     r = subprocess.run([ctx.ocaml("adfm"), "spec", sp], preexec_fn=common.big_stack, stdout=subprocess.PIPE, stderr=subprocess.PIPE, text=True, timeout=600)
     spec = {}
     spec_tree = {}
@@ -150,9 +161,15 @@ def run_history(ctx, L, first=0, nblocks=1760, variant="adfh", timeout=300):
             continue          # not a quiescent point: a file is open for writing
         if op in FILE_OPS or op in NS_OPS:
             if i in spec and spec[i] != "skip":
-                mm = compare_line(cmd, res.get(i, []), spec[i])
+                himp = res.get(i, [])
+                if i in tolerant and himp:
+                    himp = himp[:-1] + ["ok " + " ".join(himp[-1].split()[1:])]     # a space-limited call may report failure
+                mm = compare_line(cmd, himp, spec[i], ignore_names)
                 if mm:
-                    findings.append(("C01" if op in FILE_OPS else "C02", "operation result differs from the reference model", {"line": i, "cmd": cmd, "diff": mm}))
+                    prop = "C01" if op in FILE_OPS else "C02"
+                    if op == "list" and len(t) > 2 and t[2] == "1":
+                        prop = "C07"          # listing served from the directory cache
+                    findings.append((prop, "operation result differs from the reference model", {"line": i, "cmd": cmd, "diff": mm}))
         if op == "free":
             d = common.kv((res.get(i) or ["?"])[0])[1]
             last_free = int(d["free"]) if "free" in d else None
@@ -169,6 +186,9 @@ def run_history(ctx, L, first=0, nblocks=1760, variant="adfh", timeout=300):
                 st = spec_tree.get(i + 1)
                 if i + 1 <= len(L) and L[i].startswith("spectree"):
                     a, b = tree_canon_decode(dec), tree_canon_spec(st or [])
+                    if ignore_names:
+                        a = [x for x in a if x.split()[0].split("/")[-1] not in ignore_names]
+                        b = [x for x in b if x.split()[0].split("/")[-1] not in ignore_names]
                     if a != b:
                         da = [x for x in a if x not in b][:3]
                         db = [x for x in b if x not in a][:3]
